@@ -29,6 +29,8 @@ def groups(n, seed):
             rs["scaling"] = ("random", int(rng.integers(0, 2 ** 31)), 3)
         elif sc == 2:
             pk["scaling_type"] = [ScalingType.Nominal, ScalingType.GradJac, ScalingType.KKT][i % 3]
+        elif sc == 3:
+            rs["scaling"] = ("signed", int(rng.integers(0, 2 ** 31)), 3, [-1, 1][(i // 5) % 2])     # only shrinking / only stretching
         gs.append({"tag": "C05", "runs": [rs]})
     return gs
 
